@@ -3,7 +3,7 @@ From Verif Require Import Bytes HeaderFold MsgAddr Envelope.
 Require Extraction.
 Require Import ExtrOcamlBasic.
 Extraction "model.ml"
-  MsgAddr.run MsgAddr.run_flags MsgAddr.lookup MsgAddr.get_sender MsgAddr.get_sender_full
+  MsgAddr.apply_call MsgAddr.run MsgAddr.run_flags MsgAddr.lookup MsgAddr.get_sender MsgAddr.get_sender_full
   MsgAddr.get_recipients MsgAddr.render_addr MsgAddr.field_names MsgAddr.call_key
   Envelope.envelope_lines Envelope.ehlo_line Envelope.helo_line Envelope.apply_dsn_opts
   Envelope.notify_string Envelope.dsn_none Envelope.parse_path_line Envelope.smtp_mailbox.
